@@ -81,14 +81,42 @@ def r1_freshness(chk, fx):
     b = fx.user_coroutine(SESSION + "::rpc")
     chk.analysed(b.name)
     # Request::new is called inside the `.map(|operation| ..)` closure; message_id is captured
-    incs = b.calls_to("netconf::message::rpc::MessageId::increment", user_only=True)
+    # the id source: the MessageId method applied to self.last_message_id (today: increment(&mut self))
+    incs = []
+    for c in b.calls():
+        if c.macro or not c.args or "MessageId" not in c.defn:
+            continue
+        org, vis = b.backward_slice(F.op_base(c.args[0]), through_call=lambda c: False)
+        if any(o["k"] == "place" and (o["pl"].get("p") or [])[-1:] == [".last_message_id"] for o in org):
+            incs.append(c)
     if len(incs) != 1:
-        raise F.AnchorLost("Session::rpc: expected exactly one MessageId::increment call, found %d" % len(incs))
+        raise F.AnchorLost("Session::rpc: expected exactly one MessageId method applied to self.last_message_id, found %d" % len(incs))
     inc = incs[0]
-    org, vis = b.backward_slice(F.op_base(inc.args[0]), through_call=lambda c: False)
-    fields = [o for o in org if o["k"] == "place" and (o["pl"].get("p") or [])[-1:] == [".last_message_id"]]
-    chk.instance("C05/R1", "increment() is applied to self.last_message_id", b.name, inc.loc(), holds=bool(fields),
+    chk.instance("C05/R1", "the new id is derived from self.last_message_id (%s)" % T.short(inc.name(), 2), b.name, inc.loc(), holds=True,
                  key="C05/R1 rpc increment-receiver")
+    # the counter moves on *before* the request can reach the wire: whatever happens to this call afterwards (failed or abandoned
+    # send, cancelled future), the id is never handed out again
+    sends0 = b.calls_to("ClientMsg::send", user_only=True)
+    writes = []
+    for bi, bl in enumerate(b.blocks):
+        if bl.get("cleanup"):
+            continue
+        for st in bl["stmts"]:
+            if st["k"] != "assign":
+                continue
+            if (st["pl"].get("p") or [])[-1:] == [".last_message_id"]:
+                writes.append(bi)
+            if st["rv"]["k"] == "ref" and st["rv"].get("bk") == "mut" and (st["rv"]["pl"].get("p") or [])[-1:] == [".last_message_id"]:
+                writes.append(bi)
+    after_send = set()
+    for sd in sends0:
+        after_send |= b.reachable_from_succs(sd.bb)
+    ok = bool(sends0) and bool(writes) and all(any(b.dominates(w, sd.bb) and w != sd.bb for w in writes) for sd in sends0) \
+        and not any(w in after_send for w in writes)
+    chk.instance("C05/R1", "self.last_message_id is advanced before send (a write to it dominates the send; none can follow the send)", b.name, inc.loc(),
+                 holds=ok, key="C05/R1 rpc counter-advanced-after-send",
+                 detail=None if ok else "a request that reached the wire without the call completing (send error after writing, dropped rpc future) "
+                 "leaves the counter where it was: the next request re-uses the message-id")
     mid = b.forward_taint([inc.dest["l"]], through_call=lambda c: False)
     # Request::new may be called in rpc itself or in a closure defined in it (e.g. `.map(|operation| ..)`)
     direct = b.calls_to("Request::<O>::new", user_only=True)
@@ -126,7 +154,7 @@ def r1_freshness(chk, fx):
     chk.instance("C05/R1", "the reply future waits for the request's own id", b.name, rcv[0].loc(), holds=F.op_base(rcv[0].args[0]) in mid,
                  key="C05/R1 rpc awaited-id")
     # increment body: self.0 += 1; *self
-    ib = fx.body("netconf::message::rpc::MessageId::increment")
+    ib = fx.body(inc.rdef if inc.rdef in fx.mir else inc.defn)
     chk.analysed(ib.name)
     adds = []
     for bl in ib.blocks:
@@ -135,7 +163,7 @@ def r1_freshness(chk, fx):
                 adds.append(st["rv"])
     ok = len(adds) == 1 and adds[0]["bop"] in ("AddWithOverflow", "Add") and F.op_base(adds[0]["l"]) is not None \
         and adds[0]["r"].get("i") == 1 and not ib.calls()
-    chk.instance("C05/R1", "MessageId::increment adds exactly 1 (checked add) and returns the new value", ib.name, None, holds=ok,
+    chk.instance("C05/R1", "%s adds exactly 1 (checked add) and returns the new value" % T.short(ib.name, 2), ib.name, None, holds=ok,
                  key="C05/R1 MessageId::increment-body")
     # other writers of last_message_id / MessageId.0
     n = 0
@@ -417,6 +445,25 @@ def r4_r5_locks(chk, fx):
             chk.instance("C05/R5", "the receive lock is held while reading (one reader at a time)", b.name, loc_of(ap["sp"]),
                          holds="rx" in held, key="C05/R5 Session::recv read-without-rx-lock")
     chk.floor("C05/R5 transport-read suspension points", n, 1)
+    # check-then-read is atomic: the caller looks into its own slot while it already holds the receive lock, and keeps that
+    # lock until it reads.  Otherwise another reader can park this caller's reply between the look and the read, and the caller
+    # then blocks on the transport although its reply is in the table.
+    gm = b.calls_to("HashMap::<K, V, S, A>::get_mut", "HashMap::<K, V, S>::get_mut", user_only=True)
+    own = [g for g in gm if b.derives_from_var(F.op_base(g.args[1]), "message_id")]
+    chk.floor("C05/R5 own-slot lookups", len(own), 1)
+    for g in own:
+        held = held_guards(b, init_in[g.bb])
+        chk.instance("C05/R5", "the own-slot check happens under the receive lock (held: %s)" % sorted(held), b.name, g.loc(), holds="rx" in held,
+                     key="C05/R5 Session::recv slot-check-without-rx-lock",
+                     detail=None if "rx" in held else "check-own-slot and read-one-reply are not atomic with respect to other readers: a reply parked "
+                     "in between is never found and its caller waits on the transport for ever")
+        # the guard held at the check is the one still held at the read
+        rx_at_check = set(held.get("rx", []))
+        for ap in b.await_points():
+            if ap["src"] is not None and ap["src"].is_fn("ServerMsg::recv"):
+                rx_at_read = set(held_guards(b, init_in[ap["yield"]]).get("rx", []))
+                chk.instance("C05/R5", "the receive lock taken before the slot check is the one held while reading", b.name, loc_of(ap["sp"]),
+                             holds=bool(rx_at_check & rx_at_read), key="C05/R5 Session::recv rx-lock-reacquired-between-check-and-read")
     # R4: registration atomicity in rpc
     b = fx.user_coroutine(SESSION + "::rpc")
     init_in, _ = b.maybe_init()
